@@ -218,3 +218,26 @@ MUTANTS += [
     M('C20', 'rotating-without-maxbytes-falls-to-plain', 'components/logger/handlers.py', '            else:\n                raise ValueError(\n                    "max-bytes or when must be set for log rotation")', '            else:\n                factory = functools.partial(\n                    loghandler.FileHandler,\n                    path, encoding=encoding, delay=delay)'),
     M('C20', 'formatter-not-built-at-load', 'components/logger/formatter.py', '        # should be reported when the configuration is loaded, not when\n        # the handler is created.\n        self()\n', '        # should be reported when the configuration is loaded, not when\n        # the handler is created.\n'),
 ]
+
+
+# Mutants that cannot be told apart from the unchanged code by ANY check of the named property (triaged by
+# hand in the fifth session; tools/mutants.py reports them as EQUIVALENT instead of SURVIVED).
+EQUIVALENT = {
+    'default-not-converted': 'placeholder from an early session: both branches of the inserted conditional call convert()',
+    'nested-parser-gets-schema-matcher': 'placeholder: the inserted expression always evaluates to `section`',
+    'unclosed-check-only-at-top': 'placeholder: `defines` is never None and `_vf_depth` never exists, the guard is always true',
+    'start-section-catch-narrowed': 'the un-wrapped exception is still a ConfigurationError (C07 holds); what is lost is the position - C08\'s subject',
+    'empty-optpath-allowed': "'/k=v' is then refused at the end of the load ('not all command line options were consumed'), still a "
+                             'ConfigurationError (C07 holds); refusal at addOption time is C14\'s clause',
+    'import-dups-allowed': "a repeated %import then prints twice and reads back twice: the round trip (C17's statement) is unaffected",
+    'urljoin-wrapper-slice': 'the edited line is unreachable (marked `pragma: no cover`: urllib never returns file:/x here)',
+    'key-star-allowed': "name='*' is still refused by the next check ('name may not be omitted or empty')",
+    'multisection-any-name': "a fixed-name multisection is still refused by SectionInfo ('must use a name of * or +')",
+    'relative-prefix-not-composed': 'the prefix stack is at most two deep (schema / component, then sectiontype), so [0] and [-1] name the same entry '
+                                    'whenever a relative prefix is legal',
+    'private-schema-reused-across-loads': 'placeholder: only records the schema in an attribute nobody reads',
+    'getdefault-alias': 'KeyInfo defaults are ValueInfo objects that nothing mutates; handing out the same one is unobservable',
+    'multikey-getdefault-alias': 'the matcher copies the default container into its own list / dict (`v[:] = default`, `v.update(default)`)',
+    'converted-written-back-to-default': 'placeholder: the inserted branch needs a position whose fields are None, which never occurs',
+    'multikey-default-list-shared': 'the shared list is only iterated: the result is the NEW list the conversion comprehension builds',
+}
